@@ -3,11 +3,41 @@ PID = 'C14'
 SPEC = dict(
     driver='c14_tcpframe',
     extra=['ref/ref.c', 'ref/ref_sig.c', 'ref/ref_pdu.c', 'simnet.c'],
-    rule='TODO',
-    bounds=dict(quick='TODO', thorough='TODO'),
-    technique='TODO',
-    level_text='TODO',
-    level_note='TODO',
-    require_outcomes=[],
-    assumptions=[],
+    rule='Schedule enumeration at the socket seam: every answer of connect / poll / send / recv is owned by the driver. A case = one complete schedule '
+         '(chunk boundaries, would-block answers, one fault at a byte offset, connect script) run on the real client code. Parts: '
+         'rx = TCP async transport object driven directly (dispatch/getResponse), server streams of 1..3 TLV-framed PDUs with sizes {2,3,4,5,6 (TLV8 and TLV16 forms),257,258,260,65539}, '
+         'boundary code per byte position (none / chunk boundary / boundary + would-block); rxc = whole PDUs + every proper prefix of one more PDU, then peer close / reset, then a new request '
+         'whose stream must be framed from its own first byte on a fresh connection; tx = 1..3 tiny requests (<= 10 bytes) through addRequest/dispatch, every composition of partial sends, '
+         'each chunk optionally preceded by would-block, round limit 100 / 1 per virtual second; txf = connection lost at every output byte offset of tiny requests; '
+         'e2e = KSI_AsyncService_run over ksi+tcp:// with 1..3 real aggregation requests (102/103 bytes) and authentic replies (147 bytes each) of the reference aggregator: 1-cuts and 2-cuts of the '
+         'response stream and of the request stream, would-block variants, server answering at once or after the last request; flt = one fault (peer close, ECONNRESET, EPIPE, EINTR, would-block) at every byte '
+         'offset of input and of output, peer close/reset while a request is half written, connect refused / POLLHUP / poll error / EINTR / pending k polls / never completing (virtual clock), '
+         'each followed by two later requests; blk = blocking client through KSI_Signature_signAggregated: every 1-cut (and 2-cuts) of request and response, EINTR, close / reset / timeout at every '
+         'offset, connect refused / interrupted / timed out, each followed by a second request. Distinct = case name; every case reaches an oracle comparison.',
+    bounds=dict(
+        quick='rx: every composition (2^(n-1)) of all streams <= 10 bytes, with and without would-block at every boundary, full ternary codes <= 7 bytes; longer streams of 1..2 PDUs: every 1-cut for single PDUs '
+              '< 65539 bytes, cuts at PDU/header/receive-capacity boundaries +-1 and their pairs otherwise; tx: request batches <= 7 bytes, all ternary codes; e2e: every 1-cut, every 2-cut of one response, '
+              'boundary pairs + stride for 2..3 responses; every 1-cut of 1..3 requests, strided 2-cuts; flt / txf / rxc / blk faults: every byte offset; blk 2-cuts strided',
+        thorough='rx: every composition of all streams <= 14 bytes (2^13 per 14-byte stream), would-block variant <= 12 bytes, full ternary codes <= 9 bytes; all 1884 sequences of 1..3 PDUs over the 12 kinds: '
+                 'every 1-cut (streams without the 65539-byte PDU), every 2-cut (<= 40 bytes), boundary cuts +-1 and all their pairs otherwise, each with and without would-block; tx: batches <= 10 bytes, all ternary codes (3^9 x 2); '
+                 'e2e: every 2-cut of 1..2 responses and of 3 responses without would-block, every 2-cut of 1..2 requests (3 requests: pairs touching a boundary + every third); blk: every 2-cut of request and response'),
+    technique='exhaustive, deviation-bounded enumeration of environment schedules at the socket seam against the real client code under ASan+UBSan; reference TLV splitter and byte-exact wire comparison as oracle',
+    level_text='All schedules of the stated finite space are executed on the compiled client code (non-blocking transport object, asynchronous service, blocking client) with a simulated socket layer whose every '
+               'answer is a choice of the driver; nothing is sampled. Oracles: (1) the bytes written on each connection must parse as whole serialized requests (taken from the handles before anything is sent) in '
+               'submission order, cut short only where that connection ended, a cut request may only travel again whole; (2) the octet strings handed upward must equal the reference split (rtlv_read) of the '
+               'server stream, byte for byte, for every chunking, incomplete tails never; every request must be handed back with the signature for its own hash when its whole response was delivered; '
+               '(3) after a fault the affected requests must be handed back in state ERROR with a network error within an explicit horizon of run() rounds (virtual clock +1 s per idle round; a step budget on '
+               'socket calls flags spinning), the failed socket must be closed and two later requests must travel whole on a fresh connection and complete. Buffer accesses are checked by ASan on the heap-allocated '
+               'transport context (131 KB block; the 65539-byte PDU streams fill the reassembly buffer to 131077 of 131078 bytes).',
+    level_note='Trusted: the simulated socket layer (harness/simnet.c), the reference TLV/PDU model and aggregator, OpenSSL digests. KSI_IO_ERROR (0x201, reset while reading in the blocking client) is counted as a '
+               'network error. EAGAIN and EWOULDBLOCK are the same errno on Linux (one answer). An overflow inside the transport context block that stays within the block is not visible to ASan; it would show up as wrong PDUs. '
+               'EINTR on the non-blocking socket may either be retried or end the connection (both accepted; the client closes). The fits-in-buffer test of the reassembly loop can never be false for well-framed input '
+               '(at the top of the loop fewer than 65539 bytes are buffered), so its boundary is not reachable.',
+    require_outcomes=['rx:pdus:1', 'rx:pdus:3', 'rxc:close:closed', 'rxc:reset:closed', 'tx:dispatch-rc:*', 'txf:reset:reconnected', 'e2e:rx:first:ok', 'e2e:tx:first:ok',
+                      'flt:rx:close:first:err:*', 'flt:rx:close:first:ok', 'flt:rx:reset:first:err:*', 'flt:rx:wb:first:ok', 'flt:rx:close:later:ok', 'flt:tx:wb:first:ok', 'flt:tx:reset:later:ok',
+                      'flt:conn:refused:first:err:*', 'flt:conn:never:first:err:*', 'flt:conn:hup:first:err:*', 'flt:conn:pending:first:ok', 'flt:conn:refused:later:ok',
+                      'blk:rx:success', 'blk:tx:success', 'blk:rxf:close:error:*', 'blk:rxf:reset:error:*', 'blk:txf:reset:error:*', 'blk:conn:refused:error:*'],
+    assumptions=['the simulated socket layer delivers exactly the scheduled answers; request and response sizes are those of the calibration run (deterministic)',
+                 'one fault per schedule (plus chunking / would-block deviations); combinations of several faults are not enumerated'],
+    deadline=dict(quick=600, thorough=2400),
 )
